@@ -9,3 +9,20 @@ package opengraph
 //@   ensures [C14] #required-properties implies(result1 == nil, result0 != nil && result0.propertyTable["title"] != "" && result0.propertyTable["type"] != "" && result0.propertyTable["url"] != "" && len(result0.imageParser.ImageList) > 0)
 //@   ensures [C14] #error-means-no-parser implies(result1 != nil, result0 == nil)
 //@   ensures [C14] #complete-means-accepted implies(ps.propertyTable["title"] != "" && ps.propertyTable["type"] != "" && ps.propertyTable["url"] != "" && len(ps.imageParser.ImageList) > 0, result1 == nil && result0 == ps)
+
+//@ func (*Parser).findPrefixes(root)
+//@   requires root != nil && ps != nil && ps.prefixes != nil
+//@   ensures [C01] #prefix-table-kept ps.prefixes == old(ps.prefixes)
+//@   loop 0 invariant ps.prefixes == old(ps.prefixes)
+//@   loop 1 invariant ps.prefixes == old(ps.prefixes)
+
+//@ func (*Parser).parseMetaTags(root)
+//@   requires root != nil && ps != nil && ps.prefixes != nil && ps.propertyTable != nil
+
+//@ func (PrefixNameList).addObjectType(prefix, objType)
+//@   requires prefixes != nil
+//@   assigns maps
+
+//@ func (PrefixNameList).setDefault()
+//@   requires prefixes != nil
+//@   assigns maps
